@@ -352,6 +352,25 @@ impl SynCheck {
             }
         }
         ctx.feature("tower_depth_256");
+        // nesting and repetition that is NOT bracket nesting has no depth bound: very long runs
+        if kind == 0 {
+            let n = 1_000_000;
+            for (name, text) in [
+                ("nested-comment-openers", "/*".repeat(n)),
+                ("nested-comments-closed", format!("{}{}", "/* ".repeat(n / 2), "*/ ".repeat(n / 2))),
+                ("nested-ifdefs", format!("#define A\n{}class X;\n", "#ifdef A\n".repeat(n / 8))),
+                ("nested-disabled-ifdefs", "#ifdef U\n".repeat(n / 8)),
+                ("statement-run", "class A;\n".repeat(n / 8)),
+                ("paste-run", format!("defvar v = a{};", " # a".repeat(n / 4))),
+                ("suffix-run", format!("defvar v = a{};", ".f".repeat(n / 2))),
+                ("string-run", "\"s\" ".repeat(n / 4)),
+                ("error-run", "@ ".repeat(n / 2)),
+            ] {
+                self.monitor(&text, ctx);
+                ctx.feature("long_runs");
+                let _ = name;
+            }
+        }
     }
 }
 
@@ -396,7 +415,7 @@ impl Check for SynCheck {
         );
         match self.mode {
             Mode::Lossless => format!("{}. Oracle per input: leaf tokens tile 0..len in order with no gap/overlap, token.text()==input[range], root.text()==input. non-trivial = input is non-ASCII or its tree holds an Error token, a preprocessor token spanning a skipped region, or a lone '#'; distinct = distinct 64-bit digests of the input text", common),
-            Mode::Totality => format!("{}; (d) 8 kinds of nesting towers at every depth 1..=256 on a 2 MiB stack, and unterminated constructs spliced at every token boundary. Oracle per input: no panic, no stack overflow, hook step count <= 64*(bytes+8) (non-progress) and <= K*(tokens+1) with fixed K={}, every SyntaxError has a non-empty message and a range inside the text on char boundaries. non-trivial = input yields >=1 syntax error or is non-ASCII; distinct by digest", common, STEP_K),
+            Mode::Totality => format!("{}; (d) 8 kinds of nesting towers at every depth 1..=256 on a 2 MiB stack, nine megabyte-sized runs of non-bracket nesting/repetition (10^6 nested comment openers, 10^5 nested #ifdefs, paste/suffix/statement runs), and unterminated constructs spliced at every token boundary. Oracle per input: no panic, no stack overflow, hook step count <= 64*(bytes+8) (non-progress) and <= K*(tokens+1) with fixed K={}, every SyntaxError has a non-empty message and a range inside the text on char boundaries. non-trivial = input yields >=1 syntax error or is non-ASCII; distinct by digest", common, STEP_K),
         }
     }
     fn floors(&self, tier: Tier) -> Vec<(&'static str, u64)> {
@@ -409,6 +428,7 @@ impl Check for SynCheck {
             }
             Mode::Totality => {
                 v.push(("tower_depth_256", 8));
+                v.push(("long_runs", 9));
                 v.push(("unterminated_at_every_boundary", 1000));
             }
         }
